@@ -176,7 +176,7 @@ class Check:
         self.t0 = time.time()
         self.violations = []      # (replay path, note)
         self.known_hits = []
-        self.stats = {"ok": 0, "drift": 0, "fault": 0, "c_ne_s": 0, "c_ne_m": 0, "m_ne_s": 0}
+        self.stats = {"ok": 0, "drift": 0, "fault": 0, "c_ne_s": 0, "c_ne_m": 0, "m_ne_s": 0, "skipped": 0}
         self.samples = []
         self.notes = []
 
@@ -306,7 +306,15 @@ class Check:
                 if hasattr(p, "tally"):
                     p.tally(self, script, cr[0])
                 if res["kind"] in ("fault", "c_ne_s", "c_ne_m", "m_ne_s"):
-                    if len(self.violations) + len(self.known_hits) < 40:
+                    # a listed known finding is matched on the unshrunk failure and costs nothing more
+                    key0 = p.finding_key(script, res) if hasattr(p, "finding_key") else None
+                    hit = [f for f in self.findings if f["property"] == self.prop.id and key0 is not None and f["key"] == key0]
+                    if hit:
+                        self.known_scripts = getattr(self, "known_scripts", 0) + 1
+                        if hit[0] not in self.known_hits:
+                            self.known_hits.append(hit[0])
+                        continue
+                    if len(self.violations) < 40:
                         small = script
                         if len(self.violations) < 3:
                             small = shrink(p, script, res["kind"], lambda sc: self.classify(sc, part), fixed=getattr(p, "fixed_lines", 1))
